@@ -17,6 +17,39 @@ use serde_json::{json, Value};
 
 const PROP: &str = "C03";
 
+/// Relations of one level judged on that level's matches; then the subcommand's level, with its
+/// own spec (a rule or a negating setting of one level says nothing about another).
+fn judge_level(spec: &CmdSpec, ob: &Obs, depth: usize, h: &mut Hist, bad: &mut Vec<(String, String)>) {
+    let ex = r2::explicit_set(spec, ob);
+    if depth > 0 && !ex.is_empty() {
+        h.bump("ok/nested-level-with-explicit-args");
+    }
+    let at = if depth == 0 { String::new() } else { format!(" (at subcommand level {})", depth) };
+    for b in r2::evaluate(spec, ob) {
+        bad.push((
+            format!("successful parse breaks a declared relation{}: {}", if depth == 0 { "" } else { " of a subcommand level" }, b.class()),
+            format!("{:?}{}; explicit {:?}; matches: {}", b, at, ex, ob.show()),
+        ));
+    }
+    if spec.has(Setting::SubcommandRequired) && ob.sub.is_none() {
+        bad.push(("successful parse lacks the required subcommand".to_string(), format!("level {}; matches: {}", depth, ob.show())));
+    }
+    if depth > 0 {
+        for g in &spec.groups {
+            let g_present = ob.args.get(&g.id).map(|a| a.present && a.explicit()).unwrap_or(false);
+            let member = r2::members(spec, &g.id).iter().any(|m| ex.contains(*m));
+            if g_present && !member {
+                bad.push(("a group is reported present although none of its members is".to_string(), format!("group {}{}; explicit {:?}", g.id, at, ex)));
+            }
+        }
+    }
+    if let Some((name, so)) = &ob.sub {
+        if let Some(ss) = spec.sub(name) {
+            judge_level(ss, so, depth + 1, h, bad);
+        }
+    }
+}
+
 fn judge(spec: &CmdSpec, cmd: &clap::Command, argv: &[Vec<u8>], h: &mut Hist) -> Vec<(String, String)> {
     match parse(cmd, spec, argv) {
         Outcome::Ok(ob) => {
@@ -25,15 +58,8 @@ fn judge(spec: &CmdSpec, cmd: &clap::Command, argv: &[Vec<u8>], h: &mut Hist) ->
                 h.nontrivial += 1;
             }
             h.bump(&format!("ok/{}-explicit", ex.len().min(4)));
-            let mut bad: Vec<(String, String)> = r2::evaluate(spec, &ob)
-                .into_iter()
-                .map(|b| {
-                    (
-                        format!("successful parse breaks a declared relation: {}", b.class()),
-                        format!("{:?}; explicit {:?}; matches: {}", b, ex, ob.show()),
-                    )
-                })
-                .collect();
+            let mut bad: Vec<(String, String)> = vec![];
+            judge_level(spec, &ob, 0, h, &mut bad);
             // a group is present exactly when one of its members is: a group record without any
             // explicitly present member would satisfy or trigger relations on its own
             for g in &spec.groups {
@@ -103,10 +129,16 @@ fn main() {
             Tier::Thorough => if edges <= 3 { 4 } else { 2 },
         }
     };
-    let graphs = rel::graphs(k);
+    let mut graphs = rel::graphs(k);
+    let flat_graphs = graphs.len();
+    // nested family: three levels with relations and negating settings at every level, lines of
+    // up to 5 distinct tokens; appended as further blocks
+    let nested = rel::nested_graphs(tier.pick(3usize, 5usize));
+    let nested_argvs: Vec<Vec<Vec<u8>>> = rel::nested_argvs(tier.pick(5usize, 6usize));
+    graphs.extend(nested);
     let argv_by_len: Vec<Vec<Vec<Vec<u8>>>> = (0..=4).map(rel::argvs).collect();
-    rep.rule("block = one relation graph (set of <= k catalogue edges) accepted by clap's validity gate; case = one sequence of distinct tokens from {--a,--b,--c,--d,--o=x,--o=y,sub}; on every successful parse the relation evaluator R2 is applied to the explicit-presence set. non-trivial = successful parses with >= 2 explicitly present arguments");
-    rep.set("bounds", json!({"max_edges": k, "catalogue_edges": rel::catalogue().len(), "argv_len_by_edges": (0..=k).map(|e| len_for(e)).collect::<Vec<_>>(), "graphs_enumerated": graphs.len()}));
+    rep.rule("block = one relation graph (set of <= k catalogue edges) accepted by clap's validity gate; case = one sequence of distinct tokens from {--a,--b,--c,--d,--o=x,--o=y,sub}; on every successful parse the relation evaluator R2 is applied to the explicit-presence set of every level of the matches (each level judged by its own rules and its own negating settings). A second family nests three levels prog -> sub -> deep with relations and negating settings at each level. non-trivial = successful parses with >= 2 explicitly present arguments");
+    rep.set("bounds", json!({"max_edges": k, "catalogue_edges": rel::catalogue().len(), "argv_len_by_edges": (0..=k).map(|e| len_for(e)).collect::<Vec<_>>(), "graphs_enumerated": flat_graphs, "nested_family": {"edges": rel::nested_catalogue().iter().map(|e| e.name.clone()).collect::<Vec<_>>(), "graphs": graphs.len() - flat_graphs, "tokens": rel::NESTED_TOKENS, "lines_per_graph": nested_argvs.len()}}));
     rep.assume("one-directional: clap being stricter than the documentation is not this property's business");
     rep.assume("a requirement on a group is excused when a present argument conflicts with the group or with any member (lenient reading; see DESIGN §3.6)");
     rep.assume("trusted: relation evaluator mc/model/src/r2.rs written from the documentation of Arg/ArgGroup");
@@ -114,7 +146,7 @@ fn main() {
     if let Some((b, c)) = single {
         let (names, spec) = &graphs[b as usize];
         let Ok(cmd) = build_valid(spec) else { std::process::exit(0) };
-        let argv = &argv_by_len[len_for_graph(names)][c as usize];
+        let argv = if (b as usize) < flat_graphs { &argv_by_len[len_for_graph(names)][c as usize] } else { &nested_argvs[c as usize] };
         sup::describe_case(PROP, &json!({"edges": names, "spec": spec.to_json(), "argv_hex": hex_argv(argv), "argv_shown": show_argv(argv)}));
         let mut h = Hist::new();
         let bad = judge(spec, &cmd, argv, &mut h);
@@ -134,7 +166,7 @@ fn main() {
             }
         };
         let mut h = Hist::new();
-        let argvs = &argv_by_len[len_for_graph(names)];
+        let argvs = if bi < flat_graphs { &argv_by_len[len_for_graph(names)] } else { &nested_argvs };
         for (ci, argv) in argvs.iter().enumerate() {
             journal.begin(tid, bi as u64, ci as u64);
             h.evaluations += 1;
